@@ -39,6 +39,7 @@ import (
 
 const d10Key = "C16:registration-and-log-in-same-sync-range"
 const d9Key = "C16:trigger-registered-before-sync-start"
+const reregKey = "C16:reregistration-lost-after-rollback"
 
 // DefSpec is a trigger definition by labels: logs of contract A, optionally with topic0 = T,
 // optionally with first data word >= Gte.  Bad > 0: bytes that are not a valid definition.
@@ -320,6 +321,12 @@ func (w *world) runScenario(sc *Scenario) {
 	for i := range regs {
 		byIdent[fmt.Sprintf("%d/%x", regs[i].ev.Eon, regs[i].ident)] = &regs[i]
 	}
+	multiReg := map[string]int{} // identity key -> number of registrations anywhere in the tree
+	for i := range regs {
+		if admissibleReg(sc, regs[i].ev) {
+			multiReg[fmt.Sprintf("%d/%x", regs[i].ev.Eon, regs[i].ident)]++
+		}
+	}
 	logID := func(b *ethfake.Block, li int) uint64 { return uint64(b.ID)*1000 + uint64(li) }
 
 	type final struct {
@@ -354,6 +361,7 @@ func (w *world) runScenario(sc *Scenario) {
 		rangeSerial := 0
 		knownMissed := map[string]bool{}
 		verdictReported := map[string]bool{}
+		lostReg := map[string]bool{} // identities whose registration row was lost to the re-registration defect
 		regsReported := false
 		hasDec := false
 		var lastHead *ethfake.Block
@@ -408,8 +416,12 @@ func (w *world) runScenario(sc *Scenario) {
 			for _, b := range branch {
 				for _, it := range rig.ItemsOf(b) {
 					if it.Ev != nil && admissibleReg(sc, it.Ev) {
+						// ShutterEventTriggerRegistryV1.register has no "already registered" check (unlike
+						// ShutterRegistry): the same identity may be registered again, e.g. to extend its ttl.
+						// The canonical meaning is the upsert's: the last registration in chain order
+						// determines the row.
 						if seen[regKey(sc, it.Ev)] {
-							assumptionOK = false
+							run.Dist["step-with-reregistration-on-branch"]++
 						}
 						seen[regKey(sc, it.Ev)] = true
 					}
@@ -575,32 +587,54 @@ func (w *world) runScenario(sc *Scenario) {
 					decrypted[fmt.Sprintf("%d/%x", r.Eon, r.Ident)] = true
 				}
 			}
-			want := map[string]pos{}     // identity key -> earliest matching log in the window
-			wantReg := map[string]*regInfo{}
+			want := map[string]pos{}     // identity key -> the log that fires it
+			wantReg := map[string]*regInfo{} // identity key -> the registration in force when it fires (or the last one)
 			logBlockOf := map[string]int{} // identity key -> block id of that log
-			for n := int64(effStart); n <= k; n++ {
-				b := branch[n]
-				for li, it := range rig.ItemsOf(b) {
-					if it.Ev == nil || !admissibleReg(sc, it.Ev) {
-						continue
-					}
-					e := it.Ev
-					ik := fmt.Sprintf("%d/%x", e.Eon, identOf(e, defs[e.Def]))
-					for i := range regs {
-						if regs[i].blockID == b.ID && regs[i].idx == li {
-							wantReg[ik] = &regs[i]
+			reregistered := map[string]bool{}
+			{
+				// Block by block: at a block m the row of an identity is its LAST registration in a block
+				// before m (registrations of block m itself are not yet visible to the logs of m); a
+				// matching log of block m <= that registration's expiry fires it, once.
+				type cur struct {
+					reg *regInfo
+					ev  *syncrig.Ev
+				}
+				inForce := map[string]cur{}
+				for n := int64(effStart); n <= k; n++ {
+					b := branch[n]
+					items := rig.ItemsOf(b)
+					for lj, lt := range items {
+						if lt.Lg == nil {
+							continue
+						}
+						for ik, c := range inForce {
+							if _, done := want[ik]; done {
+								continue
+							}
+							if uint64(n) <= c.ev.Exp && labelMatch(sc.Defs[c.ev.Def], lt.Lg) {
+								want[ik] = pos{Block: n, Tx: int64(lt.Tx), Log: int64(lj), BHash: b.Hash.Bytes()}
+								logBlockOf[ik] = b.ID
+								wantReg[ik] = c.reg
+							}
 						}
 					}
-					found := false
-					for m := n + 1; m <= k && uint64(m) <= e.Exp && !found; m++ {
-						lb := branch[m]
-						for lj, lt := range rig.ItemsOf(lb) {
-							if lt.Lg != nil && labelMatch(sc.Defs[e.Def], lt.Lg) {
-								want[ik] = pos{Block: m, Tx: int64(lt.Tx), Log: int64(lj), BHash: lb.Hash.Bytes()}
-								logBlockOf[ik] = lb.ID
-								found = true
-								break
+					for li, it := range items {
+						if it.Ev == nil || !admissibleReg(sc, it.Ev) {
+							continue
+						}
+						ik := fmt.Sprintf("%d/%x", it.Ev.Eon, identOf(it.Ev, defs[it.Ev.Def]))
+						var ri *regInfo
+						for i := range regs {
+							if regs[i].blockID == b.ID && regs[i].idx == li {
+								ri = &regs[i]
 							}
+						}
+						if _, again := inForce[ik]; again {
+							reregistered[ik] = true
+						}
+						inForce[ik] = cur{reg: ri, ev: it.Ev}
+						if _, done := want[ik]; !done {
+							wantReg[ik] = ri
 						}
 					}
 				}
@@ -609,9 +643,18 @@ func (w *world) runScenario(sc *Scenario) {
 			// chain's admissible registrations of [sync start, k]
 			{
 				var wantRegs []string
+				lastOf := map[string]string{} // identity -> "block/log" of its last registration
 				for n := int64(effStart); n <= k; n++ {
 					for li, it := range rig.ItemsOf(branch[n]) {
 						if it.Ev != nil && admissibleReg(sc, it.Ev) {
+							lastOf[fmt.Sprintf("%d/%x", it.Ev.Eon, identOf(it.Ev, defs[it.Ev.Def]))] = fmt.Sprintf("%d/%d", n, li)
+						}
+					}
+				}
+				for n := int64(effStart); n <= k; n++ {
+					for li, it := range rig.ItemsOf(branch[n]) {
+						if it.Ev != nil && admissibleReg(sc, it.Ev) &&
+							lastOf[fmt.Sprintf("%d/%x", it.Ev.Eon, identOf(it.Ev, defs[it.Ev.Def]))] == fmt.Sprintf("%d/%d", n, li) {
 							wantRegs = append(wantRegs, fmt.Sprintf("%d/%d/%d/%x/%d", n, li, it.Ev.Eon, identOf(it.Ev, defs[it.Ev.Def]), it.Ev.Exp))
 						}
 					}
@@ -630,11 +673,41 @@ func (w *world) runScenario(sc *Scenario) {
 				if strings.Join(gotRegs, ",") != strings.Join(wantRegs, ",") && !regsReported {
 					regsReported = true
 					key := "C16:registrations-differ-from-canonical"
+					what := "position on the canonical chain but the registration table differs from the canonical chain's admissible registrations"
 					if before {
 						key = d9Key
 					}
-					run.Violate(vh.Violation{Key: key, What: "position on the canonical chain but the registration table differs from the canonical chain's admissible registrations",
-						Case: trunc(oi), Observed: gotRegs, Expected: wantRegs})
+					// do all differences concern identities that are registered more than once in the tree?
+					gotSet, wantSet := map[string]bool{}, map[string]bool{}
+					for _, x := range gotRegs {
+						gotSet[x] = true
+					}
+					for _, x := range wantRegs {
+						wantSet[x] = true
+					}
+					onlyRereg := true
+					identOfRow := func(x string) string { p := strings.Split(x, "/"); return p[2] + "/" + p[3] }
+					gotIdent := map[string]bool{}
+					for _, x := range gotRegs {
+						gotIdent[identOfRow(x)] = true
+					}
+					for _, x := range append(append([]string{}, gotRegs...), wantRegs...) {
+						// the shape of that defect: the row of a repeatedly registered identity is ABSENT
+						// (a row that is present with the wrong registration's data is something else)
+						if gotSet[x] != wantSet[x] && (multiReg[identOfRow(x)] < 2 || gotIdent[identOfRow(x)]) {
+							onlyRereg = false
+						}
+					}
+					if !before && onlyRereg {
+						key = reregKey
+						what = "an identity was registered again in a block that a reorganisation abandoned: the upsert had moved its row to that block, the rollback deleted the row, and the earlier registration, which is still on the canonical chain, is gone"
+						for _, x := range wantRegs {
+							if !gotSet[x] {
+								lostReg[identOfRow(x)] = true
+							}
+						}
+					}
+					run.Violate(vh.Violation{Key: key, What: what, Case: trunc(oi), Observed: gotRegs, Expected: wantRegs})
 					if !before {
 						fin.clean = false
 					}
@@ -693,6 +766,11 @@ func (w *world) runScenario(sc *Scenario) {
 			}
 			for ik, wp := range want { // completeness for triggers that are not decrypted
 				if _, ok := got[ik]; ok || decrypted[ik] || knownMissed[ik] {
+					continue
+				}
+				if lostReg[ik] {
+					knownMissed[ik] = true // consequence of the lost registration, reported under its own key
+					fin.clean = false
 					continue
 				}
 				if sameRange(ik) {
@@ -879,8 +957,18 @@ func (g *gen) addBlock(parent int, salt uint64, pending *[]syncrig.Item) int {
 				e = *pe.Ev
 			}
 		}
+		// re-registration of the same identity (same eon, prefix, sender, definition) with another expiry:
+		// the registry allows it, e.g. to extend the ttl
+		if len(g.seen) > 0 && r.Chance(1, 6) {
+			o := g.seen[r.Intn(len(g.seen))]
+			if keys[regKey(g.sc, &o)] {
+				exp := e.Exp
+				e = o
+				e.Exp = exp
+			}
+		}
 		if admissibleReg(g.sc, &e) {
-			if keys[regKey(g.sc, &e)] {
+			if keys[regKey(g.sc, &e)] && !(len(g.seen) > 0 && r.Chance(1, 2)) {
 				continue
 			}
 			keys[regKey(g.sc, &e)] = true
@@ -1103,6 +1191,26 @@ func forcedScenarios() []*Scenario {
 		}
 		sc.Runs = []Run{{Range: 1, Ops: []Op{{Head: 1}, {Head: 5}}}, {Range: 10_000, Ops: []Op{{Head: 1}, {Head: 5}}}, {Range: 2, Ops: []Op{{Head: 1}, {Head: 5}}},
 			{Range: 3, Ops: []Op{{Head: 1}, {Head: 2}, {Head: 5}}}}
+		out = append(out, sc)
+	}
+	// the same trigger registered twice with different expiry blocks (ttl extended / shortened), a
+	// matching log between the two expiries; both registrations in one range or in two (seed C16j)
+	for _, ext := range []bool{true, false} {
+		e1, e2 := uint64(3), uint64(100)
+		if !ext {
+			e1, e2 = 100, 3
+		}
+		d2 := []DefSpec{{A: 1, T: -1, Gte: -1}}
+		sc := &Scenario{Start: 0, Depth: 10, Defs: d2, Note: fmt.Sprintf("one identity registered twice, expiry %d then %d, matching log in block 6", e1, e2)}
+		sc.Blocks = []syncrig.BlockSpec{
+			{Parent: 0, Items: []syncrig.Item{reg(1, 0, e1)}}, // 1
+			{Parent: 1, Items: []syncrig.Item{reg(1, 0, e2)}}, // 2: the same identity again
+			{Parent: 2, Count: 3},                             // 3..5
+			{Parent: 5, Items: []syncrig.Item{lg(1, 0, 0)}},   // 6
+			{Parent: 6, Count: 1},                             // 7
+		}
+		sc.Runs = []Run{{Range: 1, Ops: []Op{{Head: 3}, {Head: 7}}}, {Range: 2, Ops: []Op{{Head: 3}, {Head: 7}}}, {Range: 10_000, Ops: []Op{{Head: 3}, {Head: 7}}},
+			{Range: 10_000, Ops: []Op{{Head: 1}, {Head: 2}, {Head: 7}}}}
 		out = append(out, sc)
 	}
 	// unsigned predicates on full words (18-decimal token amounts): 20 tokens against thresholds of 2,
